@@ -29,6 +29,7 @@ inductive ClassId where
   | bool
   | int (k : IntClass)
   | list (k : ListClass)
+  | sock (pn pd : Nat)          -- conf.SocketTimeout while supybot.drivers.poll = pn/pd
 deriving DecidableEq, Repr
 
 def SetRes.map {α β : Type} (f : α → β) : SetRes α → SetRes β
@@ -43,6 +44,7 @@ def ClassId.set (pr : Char → Bool) (c : ClassId) (cur : Val) (text : Str) : Se
   | .bool => (boolSet (match cur with | .b x => x | _ => false) text).map Val.b
   | .int k => (k.set text).map Val.i
   | .list k => .ok (.l (k.set text))
+  | .sock pn pd => (socketTimeoutSet pn pd text).map Val.i
 
 /-- `node.setValue(v)`: the stored value or the rejection -/
 def ClassId.setValue (c : ClassId) (v : Val) : SetRes Val :=
@@ -51,6 +53,7 @@ def ClassId.setValue (c : ClassId) (v : Val) : SetRes Val :=
   | .bool, .b x => .ok (.b x)
   | .int k, .i x => (k.setValue x).map Val.i
   | .list _, .l x => .ok (.l x)
+  | .sock pn pd, .i x => (socketTimeoutSetValue pn pd x).map Val.i
   | _, _ => .unm
 
 /-- `str(node)` -/
@@ -60,6 +63,7 @@ def ClassId.show (pr : Char → Bool) (c : ClassId) (v : Val) : Str :=
   | .bool, .b x => boolStr x
   | .int _, .i x => intStr x
   | .list k, .l x => k.str x
+  | .sock _ _, .i x => intStr x
   | _, _ => []
 
 /-- `node.serialize()` (NormalizedString's line wrapping is in `Wrap.lean`) -/
